@@ -69,7 +69,7 @@ def _pairs_from_choi(J, din, dout):
 
 
 CP_CONS = ("stinespring", "unitary", "isometry", "mixed-unitary", "unital-cp", "cp-generic", "tp-scaled", "unital-scaled", "redundant-unitary", "redundant-split", "zero-padded")
-NONCP_CONS = ("cptp-minus", "non-hp", "hp-perturbed", "cp-shifted", "witness", "transpose", "phase-pair", "similarity")
+NONCP_CONS = ("cptp-minus", "non-hp", "hp-perturbed", "diag-imag", "cp-shifted", "witness", "transpose", "phase-pair", "similarity")
 
 
 def _construct(p):
@@ -139,6 +139,14 @@ def _construct(p):
         # real field: a real non-symmetric perturbation (not Hermitian either)
         Jp = J + (0.05 * (np.triu(H.real, 1)) if field == "real" else 0.05j * H)
         return _pairs_from_choi(Jp, din, dout)
+    if cons == "diag-imag":
+        # the Choi matrix of a channel plus a traceless imaginary DIAGONAL: Hermitian everywhere except on the diagonal (a Hermiticity test
+        # that only compares the off-diagonal entries does not see it); traceless so that trace preservation is not what gives it away
+        J = U.ref_choi(K, K)
+        n = J.shape[0]
+        w = np.linspace(-1.0, 1.0, n) if n > 1 else np.array([1.0])
+        w = w - w.mean() if n > 1 else w
+        return _pairs_from_choi(J + 0.3j * np.diag(w), din, dout)
     if cons == "cp-shifted":
         J = U.herm(U.ref_choi(K, K))
         lam = float(np.linalg.eigvalsh(J)[0])
@@ -851,7 +859,7 @@ def cases(tier, seed):
                 ranks = [2, 3, din * din] if din > 1 else [2]
             elif cons in ("unital-cp", "unital-scaled"):
                 ranks = [r for r in (1, 2, 3) if din * r >= dout]
-            elif cons in ("hp-perturbed", "cp-shifted", "witness"):
+            elif cons in ("hp-perturbed", "diag-imag", "cp-shifted", "witness"):
                 ranks = [r for r in (1, 2) if dout * r >= din][:1] + [din * dout]
             elif cons == "cptp-minus":
                 ranks = [r for r in (1, 2) if dout * r >= din and r < din * dout][:2]
